@@ -1,6 +1,7 @@
 import AvoVerif.Drv.Common
 import AvoVerif.Model.Data
 import AvoVerif.Model.Float
+import AvoVerif.Model.DataAccept
 namespace Avo.Drv.C13
 open Avo.Drv Avo.Data Avo.NumText
 
@@ -46,12 +47,7 @@ def opTok : List String → Option (Op × List String)
   | _ => none
 
 /-- For `accept-data`: like `opTok`, but an append carries the offset the
-implementation chose for it (`a <off> <const>`), as a placement. -/
-inductive AOp where
-  | place (off : Int) (v : Const)
-  | append (off : Int) (v : Const)
-  | grow (n : Int)
-
+implementation chose for it (`a <off> <const>`). -/
 def aopTok : List String → Option (AOp × List String)
   | "p" :: off :: c :: ts => do
     let off ← off.toInt?
@@ -147,62 +143,6 @@ def parseBlock (sym : List Nat) (block : List Nat) : Option (List DataText × Li
     let ds ← revData.reverse.mapM (parseDataLine sym)
     some (ds, size)
 
-/-! #### Acceptors -/
-
-def memB (d : Datum) (p : Int) : Bool := decide (d.lo ≤ p) && decide (p < d.hi)
-
-/-- The two data share a byte. -/
-def shareB (d o : Datum) : Bool :=
-  decide (0 < d.val.size) && decide (0 < o.val.size) && decide (d.lo < o.hi) && decide (o.lo < d.hi)
-
-/-- Judge the implementation's accept/reject decisions and final state:
-the property itself, replayed over the call sequence with the
-implementation's own flags (and, for appends, the offsets it chose). -/
-def acceptData (ops : List AOp) (flags : List Bool) (data : List Datum) (size : Int) : String :=
-  let rec go (ops : List AOp) (flags : List Bool) (acc : List Datum) (grows : List Int) : String × List Datum × List Int :=
-    match ops, flags with
-    | [], [] => ("ok", acc, grows)
-    | .place off v :: ops, f :: fs =>
-      let d : Datum := ⟨off, v⟩
-      if f then
-        if acc.any (shareB d) then ("bad-overlap-accepted", acc, grows) else go ops fs (acc ++ [d]) grows
-      else
-        if acc.any (overlaps d) then go ops fs acc grows else ("bad-spurious-reject", acc, grows)
-    | .append off v :: ops, f :: fs =>
-      let d : Datum := ⟨off, v⟩
-      if !f then ("bad-append-rejected", acc, grows)
-      else if acc.any (shareB d) then ("bad-append-overlaps", acc, grows)
-      else go ops fs (acc ++ [d]) grows
-    | .grow n :: ops, _ :: fs => go ops fs acc (grows ++ [n])
-    | _, _ => ("bad-flag-count", acc, grows)
-  let (verdict, placed, grows) := go ops flags [] []
-  if verdict != "ok" then verdict else
-  -- the section holds exactly the accepted constants at their offsets (in any order)
-  if placed.length != data.length then "bad-data-count" else
-  let rec removeFirst (p : Datum → Bool) : List Datum → Option (List Datum)
-    | [] => none
-    | d :: ds => if p d then some ds else (removeFirst p ds).map (d :: ·)
-  let rec matchAll (want : List Datum) (have_ : List Datum) : Bool :=
-    match want with
-    | [] => have_.isEmpty
-    | w :: ws =>
-      match removeFirst (fun d => d == w) have_ with
-      | none => false
-      | some rest => matchAll ws rest
-  if !matchAll placed data then "bad-data-list" else
-  -- pairwise byte-disjoint, inside the section
-  let rec pairwise : List Datum → Bool
-    | [] => true
-    | d :: ds => !ds.any (shareB d) && pairwise ds
-  if !pairwise data then "bad-overlap-in-section" else
-  if data.any (fun d => decide (d.lo < 0) || decide (size < d.hi)) then "bad-outside-section" else
-  if grows.any (fun n => decide (size < n)) then "bad-grow-ignored" else
-  if !(size == 0 || data.any (fun d => d.hi == size) || grows.contains size) then "bad-size-not-furthest-extent" else
-  "ok"
-
-def inScopeA (ops : List AOp) : Bool :=
-  ops.all (fun op => match op with | .place off _ => decide (0 ≤ off) | .append off _ => decide (0 ≤ off) | _ => true)
-
 def handle : Handler
   -- data <sym hex> <attr hex> <npr> runes… <nops> ops…
   | "data" :: sym :: attr :: rest => do
@@ -213,19 +153,28 @@ def handle : Handler
     let r := run {} ops
     let g := r.1
     let dl := g.data.map (fun d => s!"{d.off}:{d.val.size}")
-    some (joinSp ([flagsStr r.2, toString g.size, toString g.data.length] ++ dl ++
-      [hex (renderBlock (prOf runes) sym attr g)]))
+    -- the text of the block is compared exactly only where the order of the lines is not at issue
+    let blk := if monotone g.data 0 then hex (renderBlock (prOf runes) sym attr g) else "-"
+    some (joinSp ([flagsStr r.2, toString g.size, toString g.data.length] ++ dl ++ [blk]))
   -- accept-data <flags> <size> <ndata> (off const)… <nops> ops…
   | "accept-data" :: flags :: size :: rest => do
     let size ← size.toInt?
     let (data, rest) ← listOf datumTok rest
     let (ops, _) ← listOf aopTok rest
     let fl := if flags == "-" then [] else flags.toList.map (· == '1')
-    if !inScopeA ops then some "ok"   -- negative offsets: outside the property's quantifier
-    else some (acceptData ops fl data size)
-  -- accept-lines <sym hex> <size> <ndata> (off const)… <block hex>
+    some (dataVerdict ops fl data size)
+  -- accept-nopanic …: sent only when the implementation panicked on the call sequence
+  | "accept-nopanic" :: _ => some "bad-panic"
+  -- accept-attrs <requested> <stored in the section> <value of the GLOBL line's attribute text per textflag.h, or -1>
+  | ["accept-attrs", req, stored, eval] => do
+    let req ← req.toInt?
+    let stored ← stored.toInt?
+    let eval ← eval.toInt?
+    some (verdictOf ((if stored != req then ["bad-attributes-stored"] else []) ++
+                     (if eval != req then ["bad-globl-attributes"] else [])))
+  -- accept-lines <inorder|outoforder|negative> <sym hex> <size> <ndata> (off const)… <block hex>
   --   assembling the implementation's printed lines (Lean's model of the assembler) gives the image
-  | "accept-lines" :: sym :: size :: rest => do
+  | "accept-lines" :: _ :: sym :: size :: rest => do
     let sym ← unhex sym
     let size ← size.toInt?
     let (data, rest) ← listOf datumTok rest
@@ -233,24 +182,22 @@ def handle : Handler
     | [block] =>
       let block ← unhex block
       let g : Global := ⟨data, size⟩
-      if g.data.any (fun d => decide (d.off < 0)) then some "ok" else
       match parseBlock sym block with
       | none => some "bad-unreadable-lines"
-      | some texts =>
-        match assemble Avo.Float.asmFloat texts with
-        | none => some (if monotone g.data 0 then "bad-lines-do-not-assemble" else "bad-lines-not-in-increasing-order")
-        | some img => some (if img == image g then "ok" else "bad-lines-image")
+      | some texts => some (if acceptLines texts g then "ok" else linesVerdict texts g)
     | _ => none
-  -- accept-asm <mono|nonmono> <ok|fail> <size> <ndata> (off const)… <bytes hex>   (measured)
+  -- accept-asm <inorder|outoforder|negative> <ok|fail:class> <size> <ndata> (off const)… <bytes hex>   (measured)
   | "accept-asm" :: _ :: status :: size :: rest => do
     let size ← size.toInt?
     let (data, rest) ← listOf datumTok rest
     match rest with
     | [bytes] =>
       let bytes ← unhex bytes
-      if status != "ok" then some "bad-assembler-rejects" else
-      let g : Global := ⟨data, size⟩
-      some (if bytes == image g then "ok" else "bad-assembled-bytes")
+      if status == "ok" then
+        some (if acceptBytes bytes ⟨data, size⟩ then "ok" else "bad-assembled-bytes")
+      else match status.splitOn ":" with
+        | ["fail", cls] => some s!"bad-assembler-rejects {cls}"
+        | _ => none
     | _ => none
   -- int <ty> <v> → text
   | ["int", ty, v] => do
@@ -306,7 +253,7 @@ def handle : Handler
   | _ => none
 
 def handlers : List (String × Handler) :=
-  ["data", "accept-data", "accept-lines", "accept-asm", "int", "accept-int", "str", "accept-str",
+  ["data", "accept-data", "accept-nopanic", "accept-attrs", "accept-lines", "accept-asm", "int", "accept-int", "str", "accept-str",
    "fparse", "accept-f32", "accept-f64", "accept-asm-f32", "accept-asm-f64"].map (·, handle)
 
 end Avo.Drv.C13
